@@ -427,6 +427,11 @@ theorem C10_acc_sourcePackage_versioned (p name rest : Bytes) (h : 32 ∉ name) 
   simp only [List.headD_eq_head?_getD] at hs
   simp [sourcePackage, he, hc, hs]
 
+/-- `deb.Control.SourceName()`: the Source field when there is one, else the package name -/
+theorem C10_acc_sourceName (p s : Bytes) :
+    sourceName p s = if s = [] then p else s := by
+  unfold sourceName; cases s <;> simp
+
 /-- `BestChecksums.Checksums()`: the SHA-256 list when it has entries, else the SHA-512 list -/
 theorem C10_acc_bestChecksums (a b : List Hash) :
     Acc.bestChecksums a b = if a ≠ [] then a else b := by
